@@ -6,6 +6,7 @@ package c15
 
 import (
 	"bytes"
+	"encoding/binary"
 	"errors"
 	"fmt"
 	"hash/adler32"
@@ -13,6 +14,7 @@ import (
 	"strconv"
 	"strings"
 	"sync"
+	"time"
 
 	"github.com/DOSNetwork/core/p2p"
 
@@ -146,6 +148,31 @@ func (c *rconn) Read(b []byte) (int, error) {
 	return n, err
 }
 
+// runReadPipe runs the real readPipe on rc until it closes its output
+func runReadPipe(rc *rconn) (got [][]byte, kind string, nerr int, hung bool) {
+	out, rerrc, rcancel := p2p.VerifC15ReadPipe(rc)
+	defer rcancel()
+	tmo := time.After(10 * time.Second)
+	for {
+		select {
+		case b, ok := <-out:
+			if !ok {
+				return
+			}
+			got = append(got, b)
+		case e := <-rerrc:
+			nerr++
+			if nerr == 1 {
+				kind = errKind(e)
+			} else {
+				rcancel() // a reader that goes on after an error would never end on a finished stream
+			}
+		case <-tmo:
+			return got, kind, nerr, true
+		}
+	}
+}
+
 func execX(line string) (res h.Result, ok bool) {
 	w := strings.Fields(line)
 	switch w[0] {
@@ -203,10 +230,18 @@ func execX(line string) (res h.Result, ok bool) {
 		in := make(chan []byte)
 		errc, cancel := p2p.VerifC15SendPipe(wc, in)
 		sent := make([]byte, len(ps))
+		sendHung := false
+		stmo := time.After(10 * time.Second)
+	send:
 		for i, p := range ps {
 			sent[i] = 'o'
 			wc.inFrameFailed = false // sendPipe is idle here: the sentinel of the payload before has been reported
-			in <- p
+			select {
+			case in <- p:
+			case <-stmo:
+				sendHung = true
+				break send
+			}
 			sc := in
 		wait:
 			for {
@@ -218,28 +253,16 @@ func execX(line string) (res h.Result, ok bool) {
 						break wait
 					}
 					sent[i] = 'e'
+				case <-stmo:
+					sendHung = true
+					break send
 				}
 			}
 		}
 		cancel()
 		wire := wc.written
 		rc := &rconn{sconn: sconn{chunks: chunk(wire, csv(w[4]))}}
-		out, rerrc, rcancel := p2p.VerifC15ReadPipe(rc)
-		var got [][]byte
-		kind := ""
-	rd:
-		for {
-			select {
-			case b, ok := <-out:
-				if !ok {
-					break rd
-				}
-				got = append(got, b)
-			case e := <-rerrc:
-				kind = errKind(e)
-			}
-		}
-		rcancel()
+		got, kind, nerr, hung := runReadPipe(rc)
 		res.Impl = fmt.Sprintf("sent=%s wire=%d:%d got=%s", sent, len(wire), adler32.Checksum(wire), showFrames(got, kind))
 		res.Nontrivial = true
 		// the property itself, judged from what was sent and what came out
@@ -282,8 +305,12 @@ func execX(line string) (res h.Result, ok bool) {
 		case res.Oracle != "":
 		case wc.callsAfterFail > 0:
 			res.Oracle = fmt.Sprintf("write-after-error: %d Write calls of a writeTo after its failing Write", wc.callsAfterFail)
-		case rc.readsAfterErr > 0:
-			res.Oracle = fmt.Sprintf("read-after-error: %d Read calls after readFrom had failed on this connection", rc.readsAfterErr)
+		case sendHung:
+			res.Oracle = "pipe-sender-hung: sendPipe did not take the next payload for 10 s"
+		case hung:
+			res.Oracle = "pipe-reader-hung: readPipe neither delivered nor ended for 10 s"
+		case rc.readsAfterErr > 0 || nerr > 1:
+			res.Oracle = fmt.Sprintf("read-after-error: readPipe went on after a failed readFrom (%d errors reported, %d Read calls after a failed Read)", nerr, rc.readsAfterErr)
 		case kind == "":
 			res.Oracle = "pipe-no-error-at-end-of-stream"
 		case transient:
@@ -306,6 +333,42 @@ func execX(line string) (res h.Result, ok bool) {
 			}
 			if res.Oracle == "" && len(got) > hi {
 				res.Oracle = fmt.Sprintf("pipe-extra-frame: %d payloads delivered, at most %d can have reached the wire", len(got), hi)
+			}
+		}
+		return res, true
+	case "rpipe":
+		stream := h.UnHex(w[1])
+		rc := &rconn{sconn: sconn{chunks: chunk(stream, csv(w[2]))}}
+		got, kind, nerr, hung := runReadPipe(rc)
+		res.Impl = "got=" + showFrames(got, kind)
+		res.Class, res.Nontrivial = "rpipe-"+kind, true
+		// independent parse: the leading well-formed frames of the stream
+		var want [][]byte
+		for s := stream; len(s) >= 4; {
+			n := int(binary.BigEndian.Uint32(s))
+			if n == 0 || n > limit || len(s) < 4+n {
+				break
+			}
+			want = append(want, s[4:4+n])
+			s = s[4+n:]
+		}
+		switch {
+		case hung:
+			res.Oracle = "pipe-reader-hung: readPipe neither delivered nor ended for 10 s"
+		case len(got) > len(want):
+			res.Oracle = fmt.Sprintf("pipe-read-past-bad-frame: %d payloads delivered (last %s), the stream holds %d well-formed frames before its first bad header or its end", len(got), h.Hex(got[len(got)-1]), len(want))
+		case len(got) < len(want):
+			res.Oracle = fmt.Sprintf("pipe-lost-frame: %d payloads delivered, the stream starts with %d well-formed frames", len(got), len(want))
+		case rc.readsAfterErr > 0 || nerr > 1:
+			res.Oracle = fmt.Sprintf("read-after-error: readPipe went on after a failed readFrom (%d errors reported, %d Read calls after a failed Read)", nerr, rc.readsAfterErr)
+		case kind == "":
+			res.Oracle = "pipe-no-error-at-end-of-stream"
+		default:
+			for i := range got {
+				if !bytes.Equal(got[i], want[i]) {
+					res.Oracle = fmt.Sprintf("pipe-bleed: delivered payload %d (%s) is not frame %d of the stream", i, h.Hex(got[i]), i)
+					break
+				}
 			}
 		}
 		return res, true
@@ -516,6 +579,34 @@ func genX(tier string, rng *h.Rng, emit func(string)) {
 		}
 		sz := []int{1 + rng.Intn(5), 1 + rng.Intn(9)}
 		emit(fmt.Sprintf("pipe %d %s %s %s", st, strings.Join(toks, ";"), scriptOf(as), csvOf(sz)))
+	}
+	// rpipe: readPipe on streams with a bad header in the middle: nothing after it may be delivered
+	emit("rpipe 000000020709002000000000000141 -") // [7 9], a 2 MiB header, then bytes that look like the frame "A"
+	emit("rpipe 0000000207090000000000000001410000000142 3")
+	nrp := 40
+	if thorough {
+		nrp = 1000
+	}
+	for i := 0; i < nrp; i++ {
+		var s []byte
+		for j, k := 0, rng.Intn(4); j < k; j++ {
+			s = append(s, frame(rng.Bytes(1+rng.Intn(6)))...)
+		}
+		switch rng.Intn(4) {
+		case 0:
+			s = append(s, 0, 0, 0, 0)
+		case 1:
+			s = append(s, []byte{0, byte(0x10 + rng.Intn(0xe0)), byte(rng.Intn(256)), byte(1 + rng.Intn(255))}...)
+		case 2:
+			s = append(s, []byte{byte(1 + rng.Intn(255)), 0, 0, byte(rng.Intn(3))}...)
+		}
+		for j, k := 0, rng.Intn(4); j < k; j++ {
+			s = append(s, frame(rng.Bytes(1+rng.Intn(6)))...)
+		}
+		if rng.Intn(5) == 0 && len(s) > 0 {
+			s = s[:len(s)-1]
+		}
+		emit(fmt.Sprintf("rpipe %s %s", h.Hex(s), csvOf([]int{1 + rng.Intn(6), 1 + rng.Intn(9)})))
 	}
 	// wr2: two goroutines call writeTo on one connection
 	emit("wr2 0709 05 4 - ab" + strings.Repeat("a", 8) + strings.Repeat("b", 8)) // A's header, B's whole frame, A's payload
